@@ -193,6 +193,7 @@ pub fn expect_ok<T>(prop: &str, stage: &str, r: Res<T>) -> Result<T, Violation> 
 /// The O7 signature: peppi::write cannot represent versions 3.0-3.6 (empty
 /// Frame End struct). Owned by C02; other properties skip that leg.
 pub fn is_o7<T>(v: (u8, u8), r: &Res<T>) -> bool {
+    // (the same panic for a game with no occupied port is O7b; only C01/C02 draw such games)
     L::gte(v, (3, 0))
         && !L::gte(v, (3, 7))
         && matches!(r, Res::Caught(Caught::Panic { msg, .. }) if msg.contains("StructArray must contain at least one field"))
